@@ -223,8 +223,13 @@ func runCheck(id, tier string) int {
 		"violations":  nv,
 	}
 	eb, _ := json.MarshalIndent(ev, "", " ")
-	os.MkdirAll(filepath.Join(root, "evidence"), 0o755)
-	if err := os.WriteFile(filepath.Join(root, "evidence", id+".json"), eb, 0o644); err != nil {
+	evDir := filepath.Join(root, "evidence")
+	if r := os.Getenv("VERIF_REPO"); r != "" && r != "/repo" {
+		// a scratch tree (seeded change) is being checked: its results are not evidence about /repo
+		evDir = filepath.Join(r, ".verif-evidence")
+	}
+	os.MkdirAll(evDir, 0o755)
+	if err := os.WriteFile(filepath.Join(evDir, id+".json"), eb, 0o644); err != nil {
 		fmt.Fprintln(os.Stderr, "verif:", err)
 		return 2
 	}
@@ -308,6 +313,7 @@ func runExplore(b *built, prop string, p part, tier string, fds []finding, known
 		deadline = t0.Add(budget)
 	}
 	var last *agg
+	var divErr error
 	for _, d := range depths {
 		if !deadline.IsZero() && time.Now().After(deadline) {
 			break
@@ -351,7 +357,18 @@ func runExplore(b *built, prop string, p part, tier string, fds []finding, known
 		// counted, reported in the evidence and make the part non-exhaustive. Many of them mean the
 		// explorer does not own the scenario's nondeterminism: that is an engine error.
 		if a.diverged > 3 && a.diverged*2000 > a.execs {
-			return rep, nil, nil, fmt.Errorf("NONDETERMINISM: %d replay divergences in %s (%s)", a.diverged, p.Scen, a.divMsg)
+			// ... unless a violation found on the way replays deterministically in fresh workers (state kept
+			// in package-level variables of the code under test makes executions depend on their
+			// predecessors in the same worker, and can be a violation's very cause): see below
+			divErr = fmt.Errorf("NONDETERMINISM: %d replay divergences in %s (%s)", a.diverged, p.Scen, a.divMsg)
+			rep.Diverged += a.diverged
+			if last == nil {
+				last = a
+			} else {
+				last.found = append(last.found, a.found...)
+				last.crashes = append(last.crashes, a.crashes...)
+			}
+			break
 		}
 		if a.diverged > 0 {
 			rep.Diverged += a.diverged
@@ -419,17 +436,38 @@ func runExplore(b *built, prop string, p part, tier string, fds []finding, known
 			return rep, nil, nil, fmt.Errorf("replay of a violation crashed the worker: %s%s", e1, e2)
 		}
 		if r1 == nil || r2 == nil || r1.Viol[0].Class != f.Viol[0].Class || r2.Viol[0].Class != f.Viol[0].Class {
+			if divErr != nil {
+				continue
+			}
 			return rep, nil, nil, fmt.Errorf("NONDETERMINISM: violation %q of %s %v not reproduced on replay", f.Viol[0].Msg, f.Scen, f.Choices)
 		}
 		for _, v := range r1.Viol {
 			viols = append(viols, violation{Part: p.Name, Scen: f.Scen, Params: f.Params.Key(), Class: v.Class, Msg: v.Msg, Replay: r1})
 		}
 	}
+	if divErr != nil {
+		if len(viols) == 0 {
+			return rep, nil, nil, divErr
+		}
+		fmt.Fprintf(os.Stderr, "verif: engine warning: %v; the violations below replay deterministically in fresh workers and are reported\n", divErr)
+	}
 	for _, c := range a.crashes {
 		// a worker died: re-run the journalled execution in a fresh worker to confirm
 		f := &explore.Found{Scen: c.Task.Scen, Params: c.Task.Params, Choices: c.Prefix}
 		_, e1 := confirm(b, f, false)
+		for try := 0; e1 == "" && try < 2; try++ {
+			_, e1 = confirm(b, f, false)
+		}
 		if e1 == "" {
+			// The same decision list does not crash again: something the explorer does not
+			// control took part. A Go panic of the code under test is a violation all the
+			// same (it happened, in the real code); anything else is an engine error.
+			if strings.Contains(c.Stderr, "panic:") || strings.Contains(c.Stderr, "fatal error:") {
+				msg := firstPanicLine(c.Stderr) + " [observed once; 3 replays of the same decision list did not reproduce it: a scheduling choice outside the explorer's control is involved]"
+				viols = append(viols, violation{Part: p.Name, Scen: f.Scen, Params: f.Params.Key(), Class: "PANIC", Msg: msg,
+					Replay: map[string]any{"scen": f.Scen, "params": f.Params, "choices": f.Choices, "stderr": c.Stderr, "reproducible": false}})
+				continue
+			}
 			return rep, nil, nil, fmt.Errorf("worker crash not reproducible (scen %s prefix %v):\n%s", c.Task.Scen, c.Prefix, c.Stderr)
 		}
 		msg := firstPanicLine(e1)
